@@ -10,11 +10,15 @@
  *        object lists and match table as printed by `hdiff -b` on two generated files.
  *   T tools dumpcell <dims> <k>                                => coordinates of the k-th value printed by hdp dumpsds -d
  *   T tools import_shape <nplanes> <nrows> <ncols>             => shape of the SDS hdfimport creates | fail
+ *   T tools import_run <to_float> <fmt>/<opt>/<np>/<nr>/<nc>,...  => fail | ok <type>:<shape> ...
+ *        ONE hdfimport run with 1-4 input files of mixed formats / options (section G)
  * Implementation oracles (no model): hdiff F F = 0; single-point mutations F' (one element of one SDS / Vdata / image,
  * one SDS / dimension / image / vdata / vdata-field / vgroup / SD-file / GR-file attribute value, one added object)
  * => hdiff F F' and hdiff F' F exit 1; the numbers printed by
- * hdp dumpsds / dumpvd / dumpgr -d equal what SDreaddata / VSread / GRreadimage return; hdfimport output values equal
- * the numeric input (text and binary, ranks 2 and 3).
+ * hdp dumpsds / dumpvd / dumpgr -d equal what SDreaddata / VSread / GRreadimage return (one object per invocation, and several
+ * datasets named in one -n list); hdiff -v <list> compares exactly the listed datasets; hdfimport output values equal
+ * the numeric input (text and binary, ranks 2 and 3); in a run with several input files every SDS equals ITS input file
+ * (shape, type, values, range, dimension scales) and the images equal those of the same files imported one by one.
  */
 #include "toolgen.h"
 #include <sys/wait.h>
@@ -28,6 +32,7 @@
 
 static char bindir[700];
 static int  verbose;
+static const char *run_cwd; /* when set: the tool runs with this working directory (hdfimport keeps its file names in char[32]) */
 
 static int run_tool(const char *tool, char **args, int nargs, const char *log)
 {
@@ -44,6 +49,7 @@ static int run_tool(const char *tool, char **args, int nargs, const char *log)
     if (pid == 0) {
         int fd = open(log, O_WRONLY | O_CREAT | O_TRUNC, 0644);
         if (fd >= 0) { dup2(fd, 1); dup2(fd, 2); close(fd); }
+        if (run_cwd && chdir(run_cwd) != 0) _exit(126);
         setenv("ASAN_OPTIONS", "detect_leaks=0:abort_on_error=0:exitcode=99", 1);
         setenv("UBSAN_OPTIONS", "print_stacktrace=1:exitcode=98", 1);
         execv(exe, argv);
@@ -292,6 +298,8 @@ static int copy_file(const char *a, const char *b)
     return 0;
 }
 
+static char mut_sds[TG_NAME + 8]; /* name of the SDS the last "sds-element" mutation changed */
+
 /* flip one value: returns a description, or NULL when this spec has no such object */
 static const char *mutate(const char *path, tg_spec_t *s, int kind, char *desc, size_t cap)
 {
@@ -320,6 +328,7 @@ static const char *mutate(const char *path, tg_spec_t *s, int kind, char *desc, 
                 SDwritedata(id, st, NULL, ed, v);
                 SDendaccess(id); SDend(sd);
                 snprintf(desc, cap, "one element of SDS %s (type %d)", d->name, (int)d->nt);
+                snprintf(mut_sds, sizeof mut_sds, "%s", d->name);
                 return "sds-element";
             }
         }
@@ -528,6 +537,29 @@ static void oracle_mutations(int k)
             snprintf(key, sizeof key, "hdiff-misses:%s", what);
             hk_fail(key, "hdiff F F' = %d, hdiff F' F = %d after changing %s", r1, r2, desc);
         }
+        /* -v <name>,<name>,...: exactly the listed datasets are compared, whatever their number and order in the list */
+        if (strcmp(what, "sds-element") == 0 && spec.nsds >= 2 && r1 == 1) {
+            char  with[TG_MAXSDS * (TG_NAME + 1) + 8] = "", without[TG_MAXSDS * (TG_NAME + 1) + 8] = "";
+            int   ord[TG_MAXSDS], i, rw, ro;
+            char *bv[4];
+            for (i = 0; i < spec.nsds; i++) ord[i] = i;
+            for (i = spec.nsds - 1; i > 0; i--) { int x = (int)hk_range(0, i), t = ord[i]; ord[i] = ord[x]; ord[x] = t; }
+            for (i = 0; i < spec.nsds; i++) {
+                const char *nm = spec.sds[ord[i]].name;
+                if (with[0]) strcat(with, ",");
+                strcat(with, nm);
+                if (strcmp(nm, mut_sds) != 0) { if (without[0]) strcat(without, ","); strcat(without, nm); }
+            }
+            bv[0] = "-v"; bv[1] = with; bv[2] = f; bv[3] = g;
+            rw = run_tool("hdiff", bv, 4, log);
+            if (rw >= 98 && rw != 255) { crash_oracle(rw, log, "hdiff", "hdiff -v list"); goto done; }
+            bv[1] = without;
+            ro = run_tool("hdiff", bv, 4, log);
+            if (ro >= 98 && ro != 255) { crash_oracle(ro, log, "hdiff", "hdiff -v list"); goto done; }
+            if (rw != 1) hk_fail("hdiff-v-list-misses", "hdiff -v %s exits %d after changing %s", with, rw, desc);
+            if (ro != 0) hk_fail("hdiff-v-list-not-exact", "hdiff -v %s exits %d although only %s was changed", without, ro, desc);
+            hk_stat("hdiff_v_list", 1);
+        }
         tie_match(f, g, log);
     }
 done:
@@ -613,6 +645,50 @@ static void oracle_dumps(int k)
             else cmp_numbers("hdp-dumpsds-values", what, nums, n, d->nt, buf, nel);
             free(buf); SDendaccess(id); SDend(sd);
             hk_stat("dumpsds", 1);
+        }
+    }
+    /* several datasets in ONE invocation (-n a,b,c in any order): the values of every one of them, in file order */
+    {
+        char  list[TG_MAXSDS * (TG_NAME + 1) + 8] = "";
+        int   pick[TG_MAXSDS], np = 0, j;
+        long  total = 0;
+        for (i = 0; i < spec.nsds; i++) {
+            tg_sds_t *d = &spec.sds[i];
+            long nel = tg_nelem(d->rank, d->dims);
+            if (!numeric_nt(d->nt) || d->empty || nel == 0 || total + nel > 60000 || !hk_chance(70)) continue;
+            pick[np++] = i; total += nel;
+        }
+        if (np >= 2) {
+            int ord[TG_MAXSDS];
+            for (j = 0; j < np; j++) ord[j] = pick[j];
+            for (j = np - 1; j > 0; j--) { int x = (int)hk_range(0, j), t = ord[j]; ord[j] = ord[x]; ord[x] = t; }
+            for (j = 0; j < np; j++) { if (j) strcat(list, ","); strcat(list, spec.sds[ord[j]].name); }
+            av[0] = "dumpsds"; av[1] = "-d"; av[2] = "-n"; av[3] = list; av[4] = f;
+            rc = run_tool("hdp", av, 5, log);
+            if (rc != 0) { if (rc >= 98) crash_oracle(rc, log, "hdp", "hdp dumpsds -d -n a,b,.."); else hk_fail("hdp-dumpsds-fails", "hdp dumpsds -d -n %s exits %d", list, rc); }
+            else {
+                int32 sd = SDstart(f, DFACC_READ), idx[TG_MAXSDS];
+                long  at = 0;
+                n = read_numbers(log, nums, 70000, &bad);
+                /* file order = order of the SDS indices */
+                for (j = 0; j < np; j++) idx[j] = SDnametoindex(sd, spec.sds[pick[j]].name);
+                for (j = 1; j < np; j++) { int a = j; while (a > 0 && idx[a - 1] > idx[a]) { int32 t = idx[a]; int t2 = pick[a]; idx[a] = idx[a - 1]; idx[a - 1] = t; pick[a] = pick[a - 1]; pick[a - 1] = t2; a--; } }
+                if (bad || n != total) hk_fail("hdp-dumpsds-list", "dumpsds -d -n %s: %d values printed (%d non numeric), the datasets hold %ld", list, n, bad, total);
+                else for (j = 0; j < np; j++) {
+                    tg_sds_t *d = &spec.sds[pick[j]];
+                    long  nel = tg_nelem(d->rank, d->dims);
+                    int32 id = SDselect(sd, idx[j]), st[TG_MAXRANK] = {0};
+                    void *buf = calloc((size_t)nel + 1, 8);
+                    char  what[200];
+                    SDreaddata(id, st, NULL, d->dims, buf);
+                    snprintf(what, sizeof what, "dumpsds -n %s: dataset %s (type %d)", list, d->name, (int)d->nt);
+                    cmp_numbers("hdp-dumpsds-list", what, nums + at, (int)nel, d->nt, buf, nel);
+                    at += nel;
+                    free(buf); SDendaccess(id);
+                }
+                SDend(sd);
+                hk_stat("dumpsds_list", 1);
+            }
         }
     }
     /* images */
@@ -813,15 +889,642 @@ done:
     if (!getenv("HK_KEEP")) { unlink(in); unlink(out); unlink(log); }
 }
 
+/* ------------------------------------------------------------------------------------------- G: hdfimport runs with 1-4 input files */
+
+/* One hdfimport run takes several input files ("<infile> [-t <type> | -n]" repeated), each of its own format, rank and shape, and
+ * makes one SDS (and / or the raster images) per input file, in the order of the command line.  process() keeps one input
+ * descriptor, one set of options and one output file for the whole run, so whatever is left behind by file i is seen by file i+1.
+ *   T tools import_run <to_float> <fmt>/<opt>/<nplanes>/<nrows>/<ncols>,...  => fail | ok <type>:<d0>x<d1>[x<d2>] ...
+ * Implementation oracles: every SDS of the output equals ITS input file (shape, type, values, range, dimension scales); the
+ * images of a run equal the images the same file gives when it is imported alone with the same options. */
+
+enum { IF_TEXT, IF_FP32, IF_FP64, IF_IN32, IF_IN16, IF_IN08, IF_HDF, IF_NFMT };
+enum { IO_NONE, IO_N, IO_TFP32, IO_TFP64, IO_TINT32, IO_TINT16, IO_TINT8, IO_NOPT };
+enum { OT_FP32, OT_FP64, OT_INT32, OT_INT16, OT_INT8 };
+static const char *IF_NAME[] = {"text", "fp32", "fp64", "in32", "in16", "in08", "hdf"};
+static const char *IF_TAG[]  = {"TEXT", "FP32", "FP64", "IN32", "IN16", "IN08", "", "text", "fp32", "fp64", "in32", "in16", "in08", ""};
+static const char *IO_NAME[] = {"-", "n", "tFP32", "tFP64", "tINT32", "tINT16", "tINT8"};
+static const char *OT_NAME[] = {"f32", "f64", "i32", "i16", "i8"};
+static const int32 OT_NT[]   = {DFNT_FLOAT32, DFNT_FLOAT64, DFNT_INT32, DFNT_INT16, DFNT_INT8};
+
+#define IMP_MAXDIM 6
+#define IMP_MAXEL  (IMP_MAXDIM * IMP_MAXDIM * IMP_MAXDIM)
+#define IMP_MAXF   4
+#define IMP_MAXIMG 64
+
+typedef struct {
+    int  fmt, opt;
+    int  out;               /* type of the SDS this file must give (OT_*), -1: hdfimport must refuse the file */
+    int  ct;                /* type of the numbers as they stand in the file */
+    int  vt;                /* type that bounds the generated values */
+    int  np, nr, nc;        /* header: planes, rows, columns */
+    int  rank; int32 dims[3];
+    long nel;
+    long mx, mn;            /* header maximum / minimum.  All values: floating-point types in eighths, integer types as they are */
+    int  has_range;         /* HDF input: the SDS carries a range */
+    int  uniform;           /* scales are start + i * step */
+    int  lower, style;
+    long sc[3][IMP_MAXDIM]; /* scales: planes, rows, columns */
+    long v[IMP_MAXEL];
+    char name[32];
+} imp_in_t;
+
+typedef struct {
+    int  raster, tofloat;
+    int  ctm;               /* 0: no -e / -i, 1: -e, 2: -i */
+    int  res[3];            /* horizontal, vertical, depth (0: not given) */
+    int  pal, mean;
+    long mean8;
+    uint8 palrgb[768];      /* as DFR8getimage returns it */
+} imp_opt_t;
+
+typedef struct { int32 w, h; int ispal; uint8 *px; uint8 pal[768]; } imp_img_t;
+
+/* what the manual says the SDS type is: TEXT takes -t / -n (default FP32); an FP64 binary file gives FP32 unless -n (or -t FP64);
+   FP32 / IN32 / IN16 / IN08 binary files give their own type and take no option; an HDF file gives FP32 */
+static int imp_expect_out(int fmt, int opt)
+{
+    int want = opt == IO_NONE ? -1 : opt == IO_N ? OT_FP64 : opt - IO_TFP32;
+    switch (fmt) {
+        case IF_TEXT: return want < 0 ? OT_FP32 : want;
+        case IF_FP64: return want < 0 ? OT_FP32 : want == OT_FP64 ? OT_FP64 : -1;
+        case IF_FP32: return want < 0 ? OT_FP32 : -1;
+        case IF_IN32: return want < 0 ? OT_INT32 : -1;
+        case IF_IN16: return want < 0 ? OT_INT16 : -1;
+        case IF_IN08: return want < 0 ? OT_INT8 : -1;
+        default: return want < 0 ? OT_FP32 : -1;
+    }
+}
+
+static void imp_bounds(int vt, int tame, long *lo, long *hi)
+{
+    switch (vt) {
+        case OT_FP32: *lo = -(1L << 20); *hi = 1L << 20; break;
+        case OT_FP64: *lo = -(1L << 40); *hi = 1L << 40; break;
+        case OT_INT32: *lo = -(1L << 31); *hi = (1L << 31) - 1; break;
+        case OT_INT16: *lo = -32768; *hi = 32767; break;
+        default: *lo = -128; *hi = 127; break;
+    }
+    if (tame) { if (*lo < -1000) *lo = -1000; if (*hi > 1000) *hi = 1000; }
+}
+
+static long imp_rnd(int vt, int tame)
+{
+    long lo, hi, v;
+    imp_bounds(vt, tame, &lo, &hi);
+    switch ((int)hk_range(0, 6)) {
+        case 0: return lo;
+        case 1: return hi;
+        case 2: return 0;
+        case 3: case 4: return hk_range(lo, hi);
+        default: v = hk_range(-20, 20); return v < lo ? lo : v > hi ? hi : v;
+    }
+}
+
+static double imp_dbl(int t, long u) { return t <= OT_FP64 ? (double)u / 8.0 : (double)u; }
+
+static void imp_put_bin(FILE *f, int ct, long u)
+{
+    switch (ct) {
+        case OT_FP32: { float32 x = (float32)u / 8.0f; fwrite(&x, 4, 1, f); break; }
+        case OT_FP64: { float64 x = (float64)u / 8.0; fwrite(&x, 8, 1, f); break; }
+        case OT_INT32: { int32 x = (int32)u; fwrite(&x, 4, 1, f); break; }
+        case OT_INT16: { int16 x = (int16)u; fwrite(&x, 2, 1, f); break; }
+        default: { int8 x = (int8)u; fwrite(&x, 1, 1, f); break; }
+    }
+}
+
+static void imp_put_txt(FILE *f, int ct, long u, int style)
+{
+    if (ct <= OT_FP64) {
+        if (style == 1 && labs(u) < 64000) fprintf(f, "%14.6E", (double)u / 8.0); /* the layout of the manual's examples */
+        else fprintf(f, " %.17g", (double)u / 8.0);
+    }
+    else fprintf(f, " %ld", u);
+}
+
+static void imp_put(FILE *f, const imp_in_t *d, long u)
+{
+    if (d->fmt == IF_TEXT) imp_put_txt(f, d->ct, u, d->style); else imp_put_bin(f, d->ct, u);
+}
+
+static int imp_write(const char *dir, const imp_in_t *d)
+{
+    char  path[800];
+    int   i, a;
+    long  q;
+    snprintf(path, sizeof path, "%s/%s", dir, d->name);
+    unlink(path);
+    if (d->fmt == IF_HDF) {
+        int32   sd = SDstart(path, DFACC_CREATE), id, st[3] = {0, 0, 0};
+        float32 buf[IMP_MAXEL + 1], sc[IMP_MAXDIM + 1], mx = (float32)d->mx / 8.0f, mn = (float32)d->mn / 8.0f;
+        int     ok = 1;
+        if (sd == FAIL) return -1;
+        id = SDcreate(sd, "in", DFNT_FLOAT32, d->rank, (int32 *)d->dims);
+        if (id == FAIL) { SDend(sd); return -1; }
+        if (d->has_range && SDsetrange(id, &mx, &mn) == FAIL) ok = 0;
+        for (a = 0; a < d->rank; a++) {
+            const long *s = d->sc[3 - d->rank + a];
+            for (i = 0; i < d->dims[a]; i++) sc[i] = (float32)s[i] / 8.0f;
+            if (SDsetdimscale(SDgetdimid(id, a), d->dims[a], DFNT_FLOAT32, sc) == FAIL) ok = 0;
+        }
+        for (q = 0; q < d->nel; q++) buf[q] = (float32)d->v[q] / 8.0f;
+        if (SDwritedata(id, st, NULL, (int32 *)d->dims, buf) == FAIL) ok = 0;
+        SDendaccess(id);
+        if (SDend(sd) == FAIL) ok = 0;
+        return ok ? 0 : -1;
+    }
+    {
+        FILE *f = fopen(path, d->fmt == IF_TEXT ? "w" : "wb");
+        const char *tag = IF_TAG[d->fmt + (d->lower ? IF_NFMT : 0)];
+        const char *nl = d->fmt == IF_TEXT ? "\n" : "";
+        if (!f) return -1;
+        if (d->fmt == IF_TEXT) fprintf(f, "%s\n%d %d %d\n", tag, d->np, d->nr, d->nc);
+        else { int32 h[3]; h[0] = d->np; h[1] = d->nr; h[2] = d->nc; fwrite(tag, 4, 1, f); fwrite(h, 4, 3, f); }
+        imp_put(f, d, d->mx); imp_put(f, d, d->mn); fputs(nl, f);
+        if (d->np > 1) { for (i = 0; i < d->np && i < IMP_MAXDIM; i++) imp_put(f, d, d->sc[0][i]); fputs(nl, f); }
+        for (i = 0; i < d->nr && i < IMP_MAXDIM; i++) imp_put(f, d, d->sc[1][i]);
+        fputs(nl, f);
+        for (i = 0; i < d->nc && i < IMP_MAXDIM; i++) imp_put(f, d, d->sc[2][i]);
+        fputs(nl, f);
+        for (q = 0; q < d->nel; q++) { imp_put(f, d, d->v[q]); if (d->nc > 0 && (q + 1) % d->nc == 0) fputs(nl, f); }
+        fclose(f);
+    }
+    return 0;
+}
+
+/* one input file: format and option (valid together unless `bad` asks for a refusal), shape, range, scales, values */
+static void imp_gen_file(imp_in_t *d, int raster, int bad, int k, int idx)
+{
+    static const int FP32_OUT[][2] = {{IF_TEXT, IO_NONE}, {IF_TEXT, IO_TFP32}, {IF_FP32, IO_NONE}, {IF_FP64, IO_NONE}, {IF_HDF, IO_NONE}};
+    static const int BAD_OPT[][2] = {{IF_FP32, IO_N}, {IF_FP32, IO_TFP32}, {IF_IN32, IO_TINT32}, {IF_IN16, IO_N}, {IF_IN08, IO_TINT8},
+                                     {IF_FP64, IO_TFP32}, {IF_FP64, IO_TINT32}, {IF_IN32, IO_TFP64}};
+    int  i, a, tame = raster;
+    long q, lo, hi, dmax, dmin;
+    memset(d, 0, sizeof *d);
+    if (bad == 2) { int p = (int)hk_range(0, 7); d->fmt = BAD_OPT[p][0]; d->opt = BAD_OPT[p][1]; }
+    else if (raster) { int p = (int)hk_range(0, 4); d->fmt = FP32_OUT[p][0]; d->opt = FP32_OUT[p][1]; }
+    else {
+        d->fmt = (int)hk_range(0, IF_NFMT - 1);
+        d->opt = IO_NONE;
+        if (d->fmt == IF_TEXT) d->opt = (int)hk_range(0, IO_NOPT - 1);
+        if (d->fmt == IF_FP64) d->opt = (int)(hk_chance(50) ? IO_NONE : hk_chance(75) ? IO_N : IO_TFP64);
+    }
+    if (bad == 1 && d->fmt == IF_HDF) d->fmt = IF_TEXT;
+    d->out = imp_expect_out(d->fmt, d->opt);
+    switch (d->fmt) {
+        case IF_TEXT: d->ct = d->out >= 0 ? d->out : OT_FP32; break;
+        case IF_FP64: d->ct = OT_FP64; break;
+        case IF_IN32: d->ct = OT_INT32; break;
+        case IF_IN16: d->ct = OT_INT16; break;
+        case IF_IN08: d->ct = OT_INT8; break;
+        default: d->ct = OT_FP32; break;
+    }
+    d->vt = d->out >= 0 ? d->out : d->ct;
+    d->np = (int)(hk_chance(50) ? 1 : hk_range(2, IMP_MAXDIM));
+    d->nr = (int)hk_range(2, IMP_MAXDIM);
+    d->nc = (int)hk_range(2, IMP_MAXDIM);
+    if (bad == 1) switch ((int)hk_range(0, 3)) {
+        case 0: d->np = (int)hk_range(-1, 0); break;
+        case 1: d->nr = (int)hk_range(0, 1); break;
+        case 2: d->nc = (int)hk_range(0, 1); break;
+        default: d->nc = 1; d->nr = 1; break;
+    }
+    if (bad == 1) d->out = -1;
+    d->rank = d->np > 1 ? 3 : 2;
+    if (d->rank == 3) { d->dims[0] = d->np; d->dims[1] = d->nr; d->dims[2] = d->nc; } else { d->dims[0] = d->nr; d->dims[1] = d->nc; }
+    d->nel = (long)(d->np > 1 ? d->np : 1) * (d->nr > 0 ? d->nr : 0) * (d->nc > 0 ? d->nc : 0);
+    d->lower = hk_chance(15);
+    d->style = (int)hk_range(0, 1);
+    snprintf(d->name, sizeof d->name, "i%d_%d.%s", k, idx, d->fmt == IF_TEXT ? "txt" : d->fmt == IF_HDF ? "hdf" : "bin");
+    for (q = 0; q < d->nel; q++) d->v[q] = imp_rnd(d->vt, tame);
+    if (raster && d->nel > 1 && d->v[0] == d->v[1]) d->v[1] = d->v[0] + 8; /* an image needs max > min */
+    dmax = dmin = d->v[0];
+    for (q = 1; q < d->nel; q++) { if (d->v[q] > dmax) dmax = d->v[q]; if (d->v[q] < dmin) dmin = d->v[q]; }
+    imp_bounds(d->vt, tame, &lo, &hi);
+    /* the header range: as the data have it / wider than the data / absent (max == min or max < min: hdfimport computes it) */
+    switch ((int)hk_range(0, raster ? 2 : 4)) {
+        case 0: d->mx = dmax; d->mn = dmin; break;
+        case 1: d->mx = dmax + hk_range(0, 40); d->mn = dmin - hk_range(0, 40);
+                if (d->mx > hi) d->mx = hi; if (d->mn < lo) d->mn = lo; break;
+        case 2: d->mx = d->mn = raster ? 0 : imp_rnd(d->vt, tame); break;
+        case 3: d->mx = imp_rnd(d->vt, tame); d->mn = imp_rnd(d->vt, tame); break; /* any two numbers: the header is not checked against the data */
+        default: d->mx = dmin; d->mn = dmax; break;
+    }
+    d->has_range = 1;
+    if (d->fmt == IF_HDF) {
+        if (!raster && hk_chance(20)) d->has_range = 0;
+        if (raster && !(d->mx > d->mn)) { d->mx = dmax; d->mn = dmin; } /* an HDF input has no computed range */
+    }
+    /* scales: images need strictly increasing ones (indexes() / interp() divide by the differences) */
+    d->uniform = raster ? hk_chance(60) : hk_chance(30);
+    for (a = 0; a < 3; a++) {
+        long start, step = hk_range(1, 2) * 8;
+        if (d->vt == OT_INT8) { start = hk_range(-100, 60); step = hk_range(1, 4); }
+        else if (d->vt >= OT_INT32) { start = hk_range(-500, 500); step = hk_range(1, 9); }
+        else start = hk_range(-40, 40) * 8;
+        for (i = 0; i < IMP_MAXDIM; i++) {
+            if (d->uniform) d->sc[a][i] = start + i * step;
+            else if (raster) d->sc[a][i] = (i ? d->sc[a][i - 1] : start) + hk_range(1, 24);
+            else d->sc[a][i] = imp_rnd(d->vt, 0);
+        }
+    }
+}
+
+static void imp_free_images(imp_img_t *im, int n) { int i; for (i = 0; i < n; i++) free(im[i].px); }
+
+static int imp_read_images(const char *path, imp_img_t *im, int cap)
+{
+    int n = DFR8nimages(path), i;
+    if (n < 0) n = 0;
+    if (n > cap) n = cap;
+    DFR8restart();
+    for (i = 0; i < n; i++) {
+        memset(&im[i], 0, sizeof im[i]);
+        if (DFR8getdims(path, &im[i].w, &im[i].h, &im[i].ispal) == FAIL) return i;
+        im[i].px = calloc((size_t)im[i].w * im[i].h + 1, 1);
+        if (DFR8getimage(path, im[i].px, im[i].w, im[i].h, im[i].pal) == FAIL) { free(im[i].px); return i; }
+    }
+    return n;
+}
+
+static void imp_desc(char *out, size_t cap, const imp_in_t *fs, int nf, int j)
+{
+    int i; size_t n;
+    snprintf(out, cap, "input %d of %d (", j + 1, nf);
+    for (i = 0; i < nf; i++) {
+        n = strlen(out);
+        snprintf(out + n, cap - n, "%s%s%s%s%s %dx%dx%d", i ? ", " : "", i == j ? "[" : "", IF_NAME[fs[i].fmt], fs[i].opt ? " -" : "", fs[i].opt ? IO_NAME[fs[i].opt] : "",
+                 fs[i].np, fs[i].nr, fs[i].nc);
+        n = strlen(out);
+        snprintf(out + n, cap - n, "%s", i == j ? "]" : "");
+    }
+    n = strlen(out);
+    snprintf(out + n, cap - n, ")");
+}
+
+/* the numbers of -e / -i as they stand when input `upto` is reached.  kept = 0: as given on the command line.  kept = 1: as
+   process() has them: when -e asks for less than the data shape of a file, the raised number is stored back into the options
+   ("opt->hres = in.dims[0]") and so holds for every later file of the run */
+static void imp_requested(const imp_in_t *fs, int upto, const imp_opt_t *o, int kept, int req[3])
+{
+    int j, a;
+    for (a = 0; a < 3; a++) req[a] = o->res[a];
+    for (j = 0; kept && j < upto; j++) {
+        int dim[3];
+        dim[0] = fs[j].nc; dim[1] = fs[j].nr; dim[2] = fs[j].np;
+        for (a = 0; a < 3; a++) if (o->ctm != 2 && req[a] != 0 && req[a] < dim[a] && (a < 2 || fs[j].rank == 3)) req[a] = dim[a];
+    }
+}
+
+/* resolution of the images of one input: "-e: cannot make image smaller", -i and plain -r take the numbers as given / the data shape */
+static void imp_expect_res(const imp_in_t *fs, int j, const imp_opt_t *o, int kept, int res[3])
+{
+    const imp_in_t *d = &fs[j];
+    int dim[3], req[3], a;
+    imp_requested(fs, j, o, kept, req);
+    dim[0] = d->nc; dim[1] = d->nr; dim[2] = d->np;
+    for (a = 0; a < 3; a++) {
+        res[a] = req[a] == 0 ? dim[a] : req[a];
+        if (o->ctm != 2 && res[a] < dim[a]) res[a] = dim[a];
+    }
+    if (d->rank == 2) res[2] = 1;
+}
+
+/* do number and sizes of the images fit the inputs? */
+static int imp_layout_fits(const imp_img_t *im, int nim, const imp_in_t *fs, int nf, const imp_opt_t *o, int kept)
+{
+    int j, p, at = 0, res[3];
+    for (j = 0; j < nf; j++) {
+        imp_expect_res(fs, j, o, kept, res);
+        if (at + res[2] > nim) return 0;
+        for (p = 0; p < res[2]; p++) if (im[at + p].w != res[0] || im[at + p].h != res[1]) return 0;
+        at += res[2];
+    }
+    return at == nim;
+}
+
+/* the SDSs of the output against their input files; prints the T line */
+static void imp_check_output(const char *outpath, int rc, const imp_in_t *fs, int nf, const imp_opt_t *o, int expect_fail)
+{
+    int   i, j, a, nsds = 0;
+    int32 sd, nds = 0, nat = 0;
+    char  what[400];
+    printf("T tools import_run %d ", o->tofloat);
+    for (i = 0; i < nf; i++) printf("%s%s/%s/%d/%d/%d", i ? "," : "", IF_NAME[fs[i].fmt], IO_NAME[fs[i].opt], fs[i].np, fs[i].nr, fs[i].nc);
+    printf(" => ");
+    if (rc != 0) {
+        printf("fail\n");
+        if (!expect_fail) { imp_desc(what, sizeof what, fs, nf, -1); hk_fail("hdfimport-status", "hdfimport exits %d on valid input files: %s", rc, what); }
+        return;
+    }
+    if (expect_fail) { imp_desc(what, sizeof what, fs, nf, -1); hk_fail("hdfimport-status", "hdfimport exits 0 although one input file must be refused: %s", what); }
+    sd = SDstart(outpath, DFACC_READ);
+    if (sd == FAIL) { printf("unreadable\n"); hk_fail("hdfimport-output", "SDstart fails on the output file"); return; }
+    SDfileinfo(sd, &nds, &nat);
+    printf("ok");
+    for (i = 0; i < nds; i++) {
+        int32 id = SDselect(sd, i), rank = 0, dims[H4_MAX_VAR_DIMS], nt = 0, na = 0;
+        char  nm[H4_MAX_NC_NAME + 1];
+        if (id == FAIL) continue;
+        if (SDiscoordvar(id)) { SDendaccess(id); continue; }
+        SDgetinfo(id, nm, &rank, dims, &nt, &na);
+        printf(" ");
+        for (j = 0; j < 5; j++) if (OT_NT[j] == nt) break;
+        if (j < 5) printf("%s:", OT_NAME[j]); else printf("%d:", (int)nt);
+        for (a = 0; a < rank; a++) printf("%s%d", a ? "x" : "", (int)dims[a]);
+        nsds++;
+        SDendaccess(id);
+    }
+    if (!nsds) printf(" -");
+    printf("\n");
+    if (expect_fail) { SDend(sd); return; }
+    if (nsds != (o->tofloat ? nf : 0)) hk_fail("hdfimport-count", "%d data sets in the output of a run with %d input files (SDS output %s)", nsds, nf, o->tofloat ? "on" : "off");
+    for (i = 0, j = 0; i < nds && j < nf && o->tofloat; i++) {
+        const imp_in_t *d = &fs[j];
+        int32  id = SDselect(sd, i), rank = 0, dims[H4_MAX_VAR_DIMS], nt = 0, na = 0, st[3] = {0, 0, 0};
+        char   nm[H4_MAX_NC_NAME + 1];
+        double buf[IMP_MAXEL + 8];
+        long   q, dmax, dmin;
+        int    same;
+        if (id == FAIL) continue;
+        if (SDiscoordvar(id)) { SDendaccess(id); continue; }
+        imp_desc(what, sizeof what, fs, nf, j);
+        SDgetinfo(id, nm, &rank, dims, &nt, &na);
+        same = rank == d->rank;
+        for (a = 0; same && a < rank; a++) if (dims[a] != d->dims[a]) same = 0;
+        if (!same) hk_fail("hdfimport-shape", "%s: SDS %s has rank %d dims %d,%d,%d", what, nm, (int)rank, (int)dims[0], (int)dims[1], rank > 2 ? (int)dims[2] : 0);
+        else if (nt != OT_NT[d->out]) hk_fail("hdfimport-type", "%s: SDS %s has type %d, expected %d", what, nm, (int)nt, (int)OT_NT[d->out]);
+        else {
+            /* values */
+            memset(buf, 0, sizeof buf);
+            if (SDreaddata(id, st, NULL, dims, buf) == FAIL) hk_fail("hdfimport-values", "%s: SDreaddata fails", what);
+            else for (q = 0; q < d->nel; q++) {
+                double e = imp_dbl(d->out, d->v[q]), g = get_val(nt, buf, q);
+                if (g != e) { hk_fail("hdfimport-values", "%s: element %ld of SDS %s is %.17g, the input file has %.17g", what, q, nm, g, e); break; }
+            }
+            /* range: the header's when it has max > min, that of the data otherwise; an HDF input's is copied */
+            dmax = dmin = d->v[0];
+            for (q = 1; q < d->nel; q++) { if (d->v[q] > dmax) dmax = d->v[q]; if (d->v[q] < dmin) dmin = d->v[q]; }
+            if (d->fmt != IF_HDF || d->has_range) {
+                double mx[2] = {0, 0}, mn[2] = {0, 0};
+                long   emx = d->mx, emn = d->mn;
+                if (d->fmt != IF_HDF && !(d->mx > d->mn)) { emx = dmax; emn = dmin; }
+                if (SDgetrange(id, mx, mn) == FAIL) hk_fail("hdfimport-range", "%s: SDS %s has no range", what, nm);
+                else if (get_val(nt, mx, 0) != imp_dbl(d->out, emx) || get_val(nt, mn, 0) != imp_dbl(d->out, emn))
+                    hk_fail("hdfimport-range", "%s: range of SDS %s is %.17g..%.17g, expected %.17g..%.17g", what, nm, get_val(nt, mn, 0), get_val(nt, mx, 0),
+                            imp_dbl(d->out, emn), imp_dbl(d->out, emx));
+            }
+            /* dimension scales */
+            for (a = 0; a < rank; a++) {
+                int32  dim = SDgetdimid(id, a), size = 0, snt = 0, sna = 0;
+                char   dn[H4_MAX_NC_NAME + 1];
+                double sb[IMP_MAXDIM + 4];
+                const long *s = d->sc[3 - d->rank + a];
+                int    x;
+                memset(sb, 0, sizeof sb);
+                if (dim == FAIL || SDdiminfo(dim, dn, &size, &snt, &sna) == FAIL) { hk_fail("hdfimport-scales", "%s: SDdiminfo fails for dimension %d", what, a); continue; }
+                if (snt != nt) { hk_fail("hdfimport-scales", "%s: scale of dimension %d of SDS %s has type %d, the data %d", what, a, nm, (int)snt, (int)nt); continue; }
+                if (SDgetdimscale(dim, sb) == FAIL) { hk_fail("hdfimport-scales", "%s: SDgetdimscale fails for dimension %d", what, a); continue; }
+                for (x = 0; x < dims[a]; x++)
+                    if (get_val(nt, sb, x) != imp_dbl(d->out, s[x])) {
+                        hk_fail("hdfimport-scales", "%s: scale value %d of dimension %d of SDS %s is %.17g, the input file has %.17g", what, x, a, nm, get_val(nt, sb, x), imp_dbl(d->out, s[x]));
+                        break;
+                    }
+            }
+            hk_stat("import_run_sds_compared", 1);
+        }
+        SDendaccess(id);
+        j++;
+    }
+    SDend(sd);
+}
+
+/* the images of the run: count and resolution per input; pixels where no expansion takes place and the scales are evenly spaced
+   (every pixel is then one data value: (unsigned char)(237.9 / (max - min) * (v - min) + 1.5)); palette */
+static void imp_check_images(const imp_img_t *im, int nim, const imp_in_t *fs, int nf, const imp_opt_t *o, int kept)
+{
+    int  j, at = 0, p, x;
+    char what[400];
+    for (j = 0; j < nf; j++) {
+        const imp_in_t *d = &fs[j];
+        int res[3], direct;
+        imp_expect_res(fs, j, o, kept, res);
+        imp_desc(what, sizeof what, fs, nf, j);
+        if (at + res[2] > nim) { hk_fail("hdfimport-raster-count", "%s: %d images in the output, this input's %d images start at %d", what, nim, res[2], at); return; }
+        direct = d->uniform && res[0] == d->nc && res[1] == d->nr && (d->rank == 2 || res[2] == d->np);
+        for (p = 0; p < res[2]; p++) {
+            const imp_img_t *g = &im[at + p];
+            if (g->w != res[0] || g->h != res[1]) { hk_fail("hdfimport-raster-resolution", "%s: image %d is %dx%d, expected %dx%d", what, at + p, (int)g->w, (int)g->h, res[0], res[1]); direct = 0; break; }
+            if (o->pal != (g->ispal != 0) || (o->pal && memcmp(g->pal, o->palrgb, 768) != 0)) { hk_fail("hdfimport-raster-palette", "%s: image %d %s", what, at + p, g->ispal ? "has another palette than the -p file" : "has no palette"); break; }
+        }
+        if (direct) {
+            float32 mx = (float32)d->mx / 8.0f, mn = (float32)d->mn / 8.0f, ratio;
+            long    q, dmax = d->v[0], dmin = d->v[0];
+            for (q = 1; q < d->nel; q++) { if (d->v[q] > dmax) dmax = d->v[q]; if (d->v[q] < dmin) dmin = d->v[q]; }
+            if (!(mx > mn)) { mx = (float32)dmax / 8.0f; mn = (float32)dmin / 8.0f; }
+            if (o->mean) {
+                float32 m = (float32)o->mean8 / 8.0f, a = (float32)fabs((double)(mx - m)), b = (float32)fabs((double)(m - mn)), dl = a > b ? a : b;
+                mx = m + dl; mn = m - dl;
+            }
+            ratio = (float32)237.9 / (mx - mn);
+            for (p = 0; p < res[2] && direct; p++)
+                for (x = 0; x < res[0] * res[1]; x++) {
+                    float32 v = (float32)d->v[(long)p * res[0] * res[1] + x] / 8.0f;
+                    int     e, got = im[at + p].px[x];
+                    if (o->ctm == 2) { if (v > mx) v = mx; if (v < mn) v = mn; }
+                    e = (unsigned char)((ratio * (v - mn)) + (float32)1.5);
+                    if (abs(got - e) > 1) { hk_fail("hdfimport-raster-pixels", "%s: pixel %d of image %d is %d, the data value %.9g in %.9g..%.9g gives %d", what, x, at + p, got, (double)v, (double)mn, (double)mx, e); direct = 0; break; }
+                }
+            hk_stat("import_run_pixels_compared", 1);
+        }
+        at += res[2];
+    }
+    if (at != nim) hk_fail("hdfimport-raster-count", "%d images in the output, the %d input files give %d", nim, nf, at);
+}
+
+static void oracle_import_run(int k)
+{
+    static imp_in_t fs[IMP_MAXF];
+    static imp_img_t im[IMP_MAXIMG], im1[IMP_MAXIMG];
+    imp_opt_t o;
+    char  out[1000], log[800], outname[160], palname[160], nbuf[8][24];
+    char *av[64], *tail[24];
+    int   na = 0, nt = 0, nn = 0, nf, i, rc, bad = 0, badidx = -1, nim = 0, kept = 0, resat[3] = {-1, -1, -1}, nonfloat = 0, longname = 0;
+    memset(&o, 0, sizeof o);
+    nf = (int)(hk_chance(15) ? 1 : hk_chance(45) ? 2 : hk_range(3, IMP_MAXF));
+    o.raster = hk_chance(35);
+    if (hk_chance(8)) { bad = (int)hk_range(1, 2); badidx = (int)hk_range(0, nf - 1); }
+    for (i = 0; i < nf; i++) imp_gen_file(&fs[i], o.raster, i == badidx ? bad : 0, k, i);
+    snprintf(outname, sizeof outname, "o%d.hdf", k);
+    snprintf(palname, sizeof palname, "p%d.pal", k);
+    /* two families the manual does not exclude and process() does not refuse, reported under the key of their cause:
+       images asked for data that are not 32-bit floats (pixrep / interp work on float32 data and the float32 scale buffers,
+       which only exist for FP32 output), and file names longer than the char[32] fields of the option record */
+    if (o.raster && !bad && hk_chance(10)) {
+        int x = (int)hk_range(0, nf - 1);
+        do imp_gen_file(&fs[x], 0, 0, k, x); while (fs[x].out == OT_FP32);
+        nonfloat = 1;
+    }
+    else if (!bad && hk_chance(8)) {
+        static const int LEN[] = {32, 33, 48, 63, 64, 65, 80, 120};
+        int L = HK_PICK(LEN), which = (int)hk_range(o.raster ? 0 : 1, 2); /* 0: palette file, 1: output file, 2: both */
+        if (which >= 1) { memset(outname, 'o', (size_t)L); snprintf(outname + L - 11, 12, "%07d.hdf", k % 10000000); }
+        if (which != 1) { memset(palname, 'p', (size_t)L); snprintf(palname + L - 11, 12, "%07d.pal", k % 10000000); }
+        longname = 1 + which;
+    }
+    else if (hk_chance(10)) { memset(outname, 'o', 31); snprintf(outname + 31 - 11, 12, "%07d.hdf", k % 10000000); } /* the longest name that fits */
+    snprintf(out, sizeof out, "%s/%s", hk_tmpdir, outname);
+    snprintf(log, sizeof log, "%s/il%d.txt", hk_tmpdir, k);
+    for (i = 0; i < nf; i++) if (imp_write(hk_tmpdir, &fs[i]) != 0) { hk_fail("generator", "imp_write failed"); goto done; }
+    /* the options after the output file (one set for the whole run) */
+    o.tofloat = 1;
+    if (!o.raster) { if (hk_chance(20)) tail[nt++] = hk_chance(50) ? "-f" : "-float"; }
+    else {
+        int maxd[3] = {2, 2, 2}, items[3], ni = 0, f_first = hk_chance(30), f_last, a;
+        for (i = 0; i < nf; i++) { if (fs[i].nc > maxd[0]) maxd[0] = fs[i].nc; if (fs[i].nr > maxd[1]) maxd[1] = fs[i].nr; if (fs[i].np > maxd[2]) maxd[2] = fs[i].np; }
+        if (f_first) tail[nt++] = "-f";
+        tail[nt++] = hk_chance(50) ? "-r" : "-raster";
+        o.ctm = (int)hk_range(0, 2); o.pal = hk_chance(35) || longname == 1 || longname == 3; o.mean = hk_chance(30);
+        if (o.ctm) items[ni++] = 0;
+        if (o.pal) items[ni++] = 1;
+        if (o.mean) items[ni++] = 2;
+        for (i = ni - 1; i > 0; i--) { int x = (int)hk_range(0, i), t = items[i]; items[i] = items[x]; items[x] = t; }
+        for (i = 0; i < ni; i++) switch (items[i]) {
+            case 0:
+                tail[nt++] = o.ctm == 1 ? (hk_chance(50) ? "-e" : "-expand") : (hk_chance(50) ? "-i" : "-interp");
+                for (a = 0; a < 3; a++) {
+                    /* -i: not below the data shape (manual); -e: anything from 2 up, a smaller number is raised to the data shape */
+                    if (a == 2 && hk_chance(50)) break;
+                    o.res[a] = hk_chance(35) ? maxd[a] : o.ctm == 2 ? maxd[a] + (int)hk_range(0, 4) : (int)hk_range(2, maxd[a] + 4);
+                    snprintf(nbuf[nn], sizeof nbuf[nn], "%d", o.res[a]); resat[a] = nt; tail[nt++] = nbuf[nn++];
+                }
+                break;
+            case 1: tail[nt++] = hk_chance(50) ? "-p" : "-palfile"; tail[nt++] = palname; break;
+            default:
+                o.mean8 = hk_range(-1200, 1200);
+                tail[nt++] = hk_chance(50) ? "-m" : "-mean";
+                snprintf(nbuf[nn], sizeof nbuf[nn], "%.3f", (double)o.mean8 / 8.0); tail[nt++] = nbuf[nn++];
+                break;
+        }
+        f_last = !f_first && hk_chance(40);
+        if (f_last) tail[nt++] = hk_chance(50) ? "-f" : "-float";
+        o.tofloat = f_first || f_last;
+        if (o.pal) {
+            uint8 raw[768]; char pp[800]; FILE *pf; int c;
+            for (c = 0; c < 768; c++) raw[c] = hk_byte();
+            for (c = 0; c < 256; c++) { o.palrgb[3 * c] = raw[c]; o.palrgb[3 * c + 1] = raw[256 + c]; o.palrgb[3 * c + 2] = raw[512 + c]; }
+            snprintf(pp, sizeof pp, "%s/%s", hk_tmpdir, palname);
+            pf = fopen(pp, "wb"); if (pf) { fwrite(raw, 1, 768, pf); fclose(pf); }
+        }
+    }
+    for (i = 0; i < nf; i++) {
+        static const char *TN[] = {"FP32", "FP64", "INT32", "INT16", "INT8"};
+        av[na++] = fs[i].name;
+        if (fs[i].opt == IO_N) av[na++] = "-n";
+        else if (fs[i].opt >= IO_TFP32) { av[na++] = hk_chance(50) ? "-t" : "-type"; av[na++] = (char *)TN[fs[i].opt - IO_TFP32]; }
+    }
+    av[na++] = hk_chance(50) ? "-o" : "-outfile"; av[na++] = outname;
+    for (i = 0; i < nt; i++) av[na++] = tail[i];
+    unlink(out);
+    run_cwd = hk_tmpdir;
+    rc = run_tool("hdfimport", av, na, log);
+    run_cwd = NULL;
+    if (verbose) { fprintf(stderr, "case %d: hdfimport", k); for (i = 0; i < na; i++) fprintf(stderr, " %s", av[i]); fprintf(stderr, " -> %d\n", rc); }
+    if (nonfloat) {
+        if (rc >= 98 && rc != 255) {
+            char what[400]; imp_desc(what, sizeof what, fs, nf, -1);
+            hk_fail("hdfimport-raster-needs-float32", "hdfimport -r on data that are not 32-bit floats is neither refused nor carried out (status %d: sanitizer report / signal): %s", rc, what);
+        }
+        hk_stat("import_run_raster_nonfloat", 1);
+        goto done;
+    }
+    if (longname) {
+        int32 sd = rc == 0 ? SDstart(out, DFACC_READ) : FAIL, nds = 0, nat = 0, n = 0;
+        if (sd != FAIL) { SDfileinfo(sd, &nds, &nat); for (i = 0; i < nds; i++) { int32 id = SDselect(sd, i); if (id != FAIL) { if (!SDiscoordvar(id)) n++; SDendaccess(id); } } SDend(sd); }
+        if (rc != 0 || sd == FAIL || n != (o.tofloat ? nf : 0) || (o.raster && DFR8nimages(out) < nf))
+            hk_fail("hdfimport-file-name-buffer", "output file name of %d, palette file name of %d characters (%d input files, SDS output %s, images %s): status %d, output file %s, %d data sets",
+                    (int)strlen(outname), o.pal ? (int)strlen(palname) : 0, nf, o.tofloat ? "on" : "off", o.raster ? "on" : "off", rc, sd == FAIL ? "missing or unreadable" : "readable", (int)n);
+        hk_stat("import_run_long_names", 1);
+        goto done;
+    }
+    if (rc >= 98 && rc != 255) { char what[400]; imp_desc(what, sizeof what, fs, nf, -1); crash_oracle(rc, log, "hdfimport", what); goto done; }
+    hk_stat(bad ? "import_run_refused" : o.raster ? "import_run_raster" : "import_run_sds", 1);
+    imp_check_output(out, rc, fs, nf, &o, bad != 0);
+    if (rc != 0 || bad || !o.raster) goto done;
+    nim = imp_read_images(out, im, IMP_MAXIMG);
+    if (!imp_layout_fits(im, nim, fs, nf, &o, 0) && imp_layout_fits(im, nim, fs, nf, &o, 1)) {
+        /* every input got the resolution process() has for it, not the one of the command line */
+        int res0[3], res1[3];
+        kept = 1;
+        for (i = 0; i < nf; i++) { imp_expect_res(fs, i, &o, 0, res0); imp_expect_res(fs, i, &o, 1, res1); if (memcmp(res0, res1, sizeof res0)) break; }
+        if (i < nf) {
+            char what[400];
+            imp_desc(what, sizeof what, fs, nf, i);
+            hk_fail("hdfimport-expand-resolution-kept", "%s: -e %d %d %d gives this input images of %dx%d (%d of them) instead of %dx%d (%d): the resolution raised for an earlier input is kept",
+                    what, o.res[0], o.res[1], o.res[2], res1[0], res1[1], res1[2], res0[0], res0[1], res0[2]);
+        }
+    }
+    imp_check_images(im, nim, fs, nf, &o, kept);
+    /* every input alone, same options: the run's images are those of its inputs, one after the other */
+    if (nf > 1) {
+        int at = 0, ok = 1;
+        for (i = 0; i < nf && ok; i++) {
+            char  one[800], onename[32], what[400], rbuf[3][24];
+            int   n1, p, na1 = 0, t, a, req[3];
+            char *av1[40];
+            snprintf(onename, sizeof onename, "s%d_%d.hdf", k, i);
+            snprintf(one, sizeof one, "%s/%s", hk_tmpdir, onename);
+            av1[na1++] = fs[i].name;
+            if (fs[i].opt >= IO_TFP32) { av1[na1++] = "-t"; av1[na1++] = "FP32"; }
+            av1[na1++] = "-o"; av1[na1++] = onename;
+            for (t = 0; t < nt; t++) av1[na1++] = tail[t];
+            /* under the finding above the file alone is given the numbers the run had reached */
+            imp_requested(fs, i, &o, kept, req);
+            for (a = 0; a < 3; a++) if (resat[a] >= 0) { snprintf(rbuf[a], sizeof rbuf[a], "%d", req[a]); av1[na1 - nt + resat[a]] = rbuf[a]; }
+            unlink(one);
+            run_cwd = hk_tmpdir;
+            rc = run_tool("hdfimport", av1, na1, log);
+            run_cwd = NULL;
+            imp_desc(what, sizeof what, fs, nf, i);
+            if (rc >= 98 && rc != 255) { crash_oracle(rc, log, "hdfimport", what); ok = 0; }
+            else if (rc != 0) { hk_fail("hdfimport-status", "%s: hdfimport exits %d on this file alone", what, rc); ok = 0; }
+            else {
+                n1 = imp_read_images(one, im1, IMP_MAXIMG);
+                for (p = 0; p < n1 && ok; p++) {
+                    const imp_img_t *a = &im1[p], *b = at + p < nim ? &im[at + p] : NULL;
+                    if (!b) { hk_fail("hdfimport-run-independent", "%s: alone it gives %d images, the run has only %d left for it", what, n1, nim - at); ok = 0; }
+                    else if (a->w != b->w || a->h != b->h) { hk_fail("hdfimport-run-independent", "%s: image %d is %dx%d when the file is imported alone, %dx%d in the run", what, p, (int)a->w, (int)a->h, (int)b->w, (int)b->h); ok = 0; }
+                    else if (memcmp(a->px, b->px, (size_t)a->w * a->h) != 0) { hk_fail("hdfimport-run-independent", "%s: pixels of image %d differ between the file imported alone and in the run", what, p); ok = 0; }
+                    else if (a->ispal != b->ispal || (a->ispal && memcmp(a->pal, b->pal, 768) != 0)) { hk_fail("hdfimport-run-independent", "%s: palette of image %d differs between the file imported alone and in the run", what, p); ok = 0; }
+                }
+                at += n1;
+                imp_free_images(im1, n1);
+            }
+            if (!getenv("HK_KEEP")) unlink(one);
+        }
+        if (ok && at != nim) hk_fail("hdfimport-run-independent", "the run has %d images, its %d input files imported one by one give %d", nim, nf, at);
+        hk_stat("import_run_vs_alone", 1);
+    }
+    imp_free_images(im, nim);
+done:
+    if (!getenv("HK_KEEP")) {
+        char pth[800];
+        for (i = 0; i < nf; i++) { snprintf(pth, sizeof pth, "%s/%s", hk_tmpdir, fs[i].name); unlink(pth); }
+        snprintf(pth, sizeof pth, "%s/%s", hk_tmpdir, palname); unlink(pth);
+        unlink(out); unlink(log);
+    }
+}
+
 static void run_case(int k)
 {
     int i;
     for (i = 0; i < 6; i++) tie_adiff(k);
     switch (k % 4) {
-        case 0: tie_hdiff(k); tie_dumpcell(k); break;
+        case 0: tie_hdiff(k); tie_dumpcell(k); oracle_import_run(k); break;
         case 1: oracle_mutations(k); break;
         case 2: oracle_dumps(k); break;
-        default: tie_import(k); tie_hdiff(k); break;
+        default: tie_import(k); tie_hdiff(k); oracle_import_run(k); break;
     }
 }
 
